@@ -305,9 +305,11 @@ def run_tool(exe, args, timeout=900, stdin=None):
     return p.stdout.decode('utf-8', 'replace').split('\n'), time.time() - t0
 
 
-def run_tool_sharded(exe, args, path, shards=16, timeout=2400, min_lines=4000):
+def run_tool_sharded(exe, args, path, shards=16, timeout=2400, min_lines=4000, interleave=False):
     """run `exe args... <case file>` on the case file cut into `shards` pieces of whole lines, in parallel; the outputs are
-    concatenated in order (every tool handles its case lines independently of each other)"""
+    concatenated in order (every tool handles its case lines independently of each other).  interleave: shard i gets the lines
+    i, i + shards, ... (expensive cases that sit next to each other are spread out); needs a tool that prints one line per case
+    line - checked, with the unsharded run as the fallback"""
     with open(path) as f:
         lines = f.read().split('\n')
     if lines and lines[-1] == '':
@@ -319,7 +321,7 @@ def run_tool_sharded(exe, args, path, shards=16, timeout=2400, min_lines=4000):
     n = (len(lines) + shards - 1) // shards
     parts = []
     for i in range(shards):
-        chunk = lines[i * n:(i + 1) * n]
+        chunk = lines[i::shards] if interleave else lines[i * n:(i + 1) * n]
         if not chunk:
             break
         pp = '%s.shard%d' % (path, i)
@@ -333,11 +335,17 @@ def run_tool_sharded(exe, args, path, shards=16, timeout=2400, min_lines=4000):
             os.remove(pp)
         except OSError:
             pass
-    out = []
-    for o in outs:
-        if o and o[-1] == '':
-            o = o[:-1]
-        out.extend(o)
+    outs = [o[:-1] if o and o[-1] == '' else o for o in outs]
+    if interleave:
+        if [len(o) for o in outs] != [len(lines[i::shards]) for i in range(len(outs))]:
+            return run_tool(exe, args + [path], timeout=timeout)
+        out = [None] * len(lines)
+        for i, o in enumerate(outs):
+            out[i::shards] = o
+    else:
+        out = []
+        for o in outs:
+            out.extend(o)
     out.append('')
     return out, time.time() - t0
 
